@@ -2841,6 +2841,11 @@ class AggregateBase(UnitsManaged, Saveable, OpenSystem):
                             relaxation_hamiltonian=H,
                             start=start)
 
+                # the populations are defined in the EXCITON BASIS
+                with eigenbasis_of(Ham):
+                    self.rho0 = rho0
+                    return DensityMatrix(data=self.rho0)
+
             else:
                 raise Exception("Unknown relaxation_theory_limit")
 
